@@ -1,6 +1,22 @@
 """Per-property driver configuration (level claimed, generation/non-triviality rule, assumptions)."""
 
 PROPS = {
+    "C07": {
+        "level": "exploration",
+        "workers": 16,
+        "engine": "E2-sim",
+        "technique": "model-based property testing (proptest request sequences on a real setup() node); oracles: plain-SQLite shadow (differential), version counter model, crsql_changes as ground truth for the broadcast",
+        "level_text": ("generated sequences of write requests (valid, failing at first/middle/last statement, no-op, bulk, concurrent groups) through the real "
+                       "api_v1_transactions handler of a node built with the real setup(); after every request: status, tables vs a plain-SQLite shadow running the "
+                       "same statements, crsql_db_version, version == previous+1, broadcast chunks captured from the agent's own channel tile 0..=last_seq and carry "
+                       "exactly the version's crsql_changes rows, no stray change message, own actor never listed as needed"),
+        "level_note": "trusts SQLite itself (the shadow is the same library without cr-sqlite) and the harness' capture of rx_bcast; HTTP layer is bypassed (handler called directly)",
+        "rule": ("generated: 3-14 (quick) / 3-40 (thorough) steps; a step is one request of 1-6 statements from a grammar (upsert/update/update-all/delete/multi-row/"
+                 "composite-key/big payload/INSERT..SELECT of 0..3000 rows/named params/no-op/self-assign + injected failures: duplicate key, NOT NULL, syntax, unknown table, "
+                 "wrong parameter count at any position) or a concurrent group of 2-6 requests. Non-trivial: a request failing at a non-first statement, a version broadcast "
+                 "in >=2 chunks, or a concurrent group mixing failures and successes. Distinct = hash of the step list."),
+        "assumptions": ["timeout-induced failures are not generated", "client disconnect mid-request is not modelled"],
+    },
     "C09": {
         "level": "exploration",
         "workers": 16,
